@@ -976,6 +976,8 @@ fn window(v: &[String], at: usize) -> Vec<String> {
 /// `--few`: the family runs as a supporting correspondence of another property's check (C03, C13):
 /// only the model/implementation comparison counts there, C14's own statement oracles are not reported
 static SUPPORT_MODE: std::sync::atomic::AtomicBool = std::sync::atomic::AtomicBool::new(false);
+/// `--for Cxx`: the property whose check the family supports
+static SUPPORT_FOR: Mutex<String> = Mutex::new(String::new());
 
 pub fn check_case(c: &Case14, model: &mut Model, rep: &mut Report) {
     rep.evaluations += 1;
@@ -1082,7 +1084,14 @@ pub fn check_case(c: &Case14, model: &mut Model, rep: &mut Report) {
     let support = SUPPORT_MODE.load(std::sync::atomic::Ordering::Relaxed);
     for (sig, what) in &j.failures {
         if support {
-            rep.count("c14_statement_oracle_failures_not_reported_in_support_mode");
+            // the one clause that is also the host property's: an event a sender sent BEFORE its last
+            // one (done.invoke) is dequeued after it — processed zero times / out of sender order (C13)
+            let host = SUPPORT_FOR.lock().unwrap().clone();
+            if host == "C13" && sig == "C14:event-after-done.invoke" {
+                rep.oracle_fail("C13:sender-order:event-after-done.invoke", info(what));
+            } else {
+                rep.count("c14_statement_oracle_failures_not_reported_in_support_mode");
+            }
             continue;
         }
         if seen_sig.contains(sig) {
@@ -1182,6 +1191,9 @@ pub fn run(args: &Args, model: &mut Model) -> Report {
          state per (seed,index); non-trivial = at least one invocation was started",
     );
     SUPPORT_MODE.store(args.extra.iter().any(|a| a == "--few"), std::sync::atomic::Ordering::Relaxed);
+    if let Some(i) = args.extra.iter().position(|a| a == "--for") {
+        *SUPPORT_FOR.lock().unwrap() = args.extra.get(i + 1).cloned().unwrap_or_default();
+    }
     // children get quiet recording tracers
     let _ = factory_logs();
     if let Some(path) = &args.replay {
